@@ -82,8 +82,8 @@ class PropertyRun:
             for ob in res["obligations"]:
                 if ob.get("trivial"):
                     trivial += 1
-                    self.results.append(dict(name=ob["name"], verdict="unsat", backend="syntactic", secs=0.0,
-                                             path=ob.get("path")))
+                    self.results.append(dict(name=ob["name"], verdict="unsat", backend=ob.get("backend", "syntactic"),
+                                             secs=ob.get("secs", 0.0), path=ob.get("path")))
                     continue
                 j = make_job(ob, self.tier, getattr(mod, "EXTRA_AXIOMS", ()))
                 j["path"] = ob.get("path")
